@@ -221,3 +221,63 @@ package parser
 //@ ensures allow: err == nil && p.Allow != nil ==> res.Kind == biscuit.PolicyKindAllow && len(res.Queries) == len(p.Allow.Queries)
 //@ ensures deny: err == nil && p.Allow == nil && p.Deny != nil ==> res.Kind == biscuit.PolicyKindDeny && len(res.Queries) == len(p.Deny.Queries)
 //@ ensures wf: err == nil ==> fresh(res) && pRulesWF(res.Queries)
+
+//@ func (b *Block) ToBiscuit(parameters ParametersMap) (res *biscuit.ParsedBlock, err error)
+//@ serves C10 C14
+//@ requires b != nil
+//@ assumes forall j int :: { b.Body[j] } 0 <= j && j < len(b.Body) ==> astBlockElemOK(b.Body[j])
+//@ modifies nothing
+//@ loop 0 invariant (cap(facts) == 0 || fresh(arr(facts))) && pFactsWF(facts) && (cap(rules) == 0 || fresh(arr(rules))) && pRulesWF(rules) && (cap(checks) == 0 || fresh(arr(checks))) && pChecksWF(checks)
+//@ ensures value_or_error: (err == nil) == (res != nil)
+//@ ensures wf: err == nil ==> fresh(res) && pFactsWF(res.Facts) && pRulesWF(res.Rules) && pChecksWF(res.Checks)
+
+//@ func (b *Authorizer) ToBiscuit(parameters ParametersMap) (res *biscuit.ParsedAuthorizer, err error)
+//@ serves C10 C14
+//@ requires b != nil
+//@ assumes forall j int :: { b.Body[j] } 0 <= j && j < len(b.Body) ==> b.Body[j] != nil && (b.Body[j].BlockElement != nil ==> astBlockElemOK(b.Body[j].BlockElement)) && (b.Body[j].Policy != nil ==> (b.Body[j].Policy.Allow != nil ==> astQueriesOK(b.Body[j].Policy.Allow.Queries)) && (b.Body[j].Policy.Deny != nil ==> astQueriesOK(b.Body[j].Policy.Deny.Queries)))
+//@ modifies nothing
+//@ loop 0 invariant (cap(facts) == 0 || fresh(arr(facts))) && pFactsWF(facts) && (cap(rules) == 0 || fresh(arr(rules))) && pRulesWF(rules) && (cap(checks) == 0 || fresh(arr(checks))) && pChecksWF(checks) && (cap(policies) == 0 || fresh(arr(policies))) && pPoliciesWF(policies)
+//@ ensures value_or_error: (err == nil) == (res != nil)
+//@ ensures wf: err == nil ==> fresh(res) && pFactsWF(res.Block.Facts) && pRulesWF(res.Block.Rules) && pChecksWF(res.Block.Checks) && pPoliciesWF(res.Policies)
+
+// ---------------------------------------------------------------------------
+// entry points (parser.go): participle builds the tree, the functions above convert it
+
+//@ func (p *parser) Fact(fact string, parameters ParametersMap) (res biscuit.Fact, err error)
+//@ serves C10 C14
+//@ requires p != nil && p.factParser != nil
+//@ modifies nothing
+//@ loop 0 invariant forall k int :: { pred.IDs[k] } 0 <= k && k < #i ==> !(pred.IDs[k] is biscuit.Variable)
+//@ ensures no_variables_in_facts: err == nil ==> (forall k int :: { res.Predicate.IDs[k] } 0 <= k && k < len(res.Predicate.IDs) ==> res.Predicate.IDs[k] != nil && !(res.Predicate.IDs[k] is biscuit.Variable))
+
+//@ func (p *parser) Rule(rule string, parameters ParametersMap) (res biscuit.Rule, err error)
+//@ serves C10 C14
+//@ requires p != nil && p.ruleParser != nil
+//@ modifies nothing
+//@ ensures wf: err == nil ==> pRuleWF(res)
+
+//@ func (p *parser) Check(check string, parameters ParametersMap) (res biscuit.Check, err error)
+//@ serves C10 C14
+//@ requires p != nil && p.checkParser != nil
+//@ modifies nothing
+//@ loop 0 invariant len(queries) == len(parsed.Queries) && fresh(arr(queries)) && (forall k int :: { queries[k] } 0 <= k && k < #i ==> pRuleWF(queries[k]))
+//@ ensures wf: err == nil ==> pRulesWF(res.Queries)
+
+//@ func (p *parser) Policy(policy string, parameters ParametersMap) (res biscuit.Policy, err error)
+//@ serves C10 C14
+//@ requires p != nil && p.policyParser != nil
+//@ modifies nothing
+//@ loop 0 invariant len(queries) == len(parsedQueries) && fresh(arr(queries)) && (forall k int :: { queries[k] } 0 <= k && k < #i ==> pRuleWF(queries[k]))
+//@ ensures wf: err == nil ==> pRulesWF(res.Queries)
+
+//@ func (p *parser) Block(block string, parameters ParametersMap) (res biscuit.ParsedBlock, err error)
+//@ serves C10 C14
+//@ requires p != nil && p.blockParser != nil
+//@ modifies nothing
+//@ ensures wf: err == nil ==> pFactsWF(res.Facts) && pRulesWF(res.Rules) && pChecksWF(res.Checks)
+
+//@ func (p *parser) Authorizer(authorizer string, parameters ParametersMap) (res biscuit.ParsedAuthorizer, err error)
+//@ serves C10 C14
+//@ requires p != nil && p.authorizerParser != nil
+//@ modifies nothing
+//@ ensures wf: err == nil ==> pFactsWF(res.Block.Facts) && pRulesWF(res.Block.Rules) && pChecksWF(res.Block.Checks) && pPoliciesWF(res.Policies)
